@@ -350,16 +350,25 @@ def _filter(ctx):
     reqs = [st for b in behs for st in b[1:] if st.get("a") == "req"]
     if not any(st["hit"] == 0 for st in reqs) or not any(st["adm"] < st["k"] for st in reqs):
         ctx.inconclusive("filter behaviours contain no request to an unmatched URL / no rejection (vacuous)")
-    carried = 0
+    carried, carried_re = 0, 0
+    via_seen = set(st.get("via") for st in reqs)
     for b in behs:
         # a rejection right after a reload: the permits were used up on an earlier generation
-        rej_after_reload = any(b[i].get("a") == "reload" and b[i + 1].get("a") == "req" and b[i + 1]["hit"] > 0 and b[i + 1]["adm"] == 0
-                               for i in range(1, len(b) - 1))
-        if rej_after_reload:
+        rej = [b[i + 1] for i in range(1, len(b) - 1)
+               if b[i].get("a") == "reload" and b[i + 1].get("a") == "req" and b[i + 1]["hit"] > 0 and b[i + 1]["adm"] == 0]
+        if rej:
             carried += 1
             ctx.nontrivial({"k": "filter", "b": b})
+            # ... of a rule that accepted the path through its regular expression only
+            if any(st.get("via") == "regex" for st in rej):
+                carried_re += 1
     if carried < 5:
         ctx.inconclusive("filter behaviours: only %d show a limiter exhausted on one generation and still limiting on the next (vacuous)" % carried)
+    if carried_re < 3:
+        ctx.inconclusive("filter behaviours: only %d show a limiter exhausted on one generation and still limiting, through a rule matched by "
+                         "its regular expression, on the next (vacuous)" % carried_re)
+    if not {"exact", "prefix", "regex", "empty", "several", "none"} <= via_seen:
+        ctx.inconclusive("filter behaviours: not every kind of URL pattern decided a request (seen: %s)" % sorted(via_seen))
     ctx.sample({"kind": "filter-behaviour", "steps": [{k: v for k, v in s.items() if k != "spec"} for s in behs[0][1:7]]})
     for m in [x for x in recs if x.get("k") == "mismatch"]:
         beh = m["behaviour"]
@@ -369,10 +378,12 @@ def _filter(ctx):
                        for s in beh if "spec" in s for p in s["spec"]["pols"])
         cls = ("unmatched-url-limited" if st.get("hit") == 0 else "reject-shape" if "neither admitted" in m["what"] else
                "too-many-admitted" if "of" in m["what"] and int(m["what"].split()[0]) > st.get("adm", 0) else "too-few-admitted")
-        ctx.violation({"kind": "filter", "class": cls, "after_reload": reloaded, "defaulted_policy": defaults},
+        ctx.violation({"kind": "filter", "class": cls, "after_reload": reloaded, "defaulted_policy": defaults, "via": st.get("via", "")},
                       "real RateLimiter filter diverges from the specification at step %d: %s" % (m["step"], m["what"]), m)
-    ctx.log("filter: %d behaviours (%d need the 10ms-period limiters to stay young: %d too slow), %d steps, %d mismatches, %d with state carried over a reload" % (
-        len(behs), summ[0]["fast"], summ[0]["slow"], summ[0]["steps"], summ[0]["mismatches"], carried))
+    ctx.log("filter: %d behaviours (%d need the 10ms-period limiters to stay young: %d too slow), %d steps, %d mismatches, %d with state carried over a reload "
+            "(%d through a regex-matched rule); patterns deciding: %s" % (
+        len(behs), summ[0]["fast"], summ[0]["slow"], summ[0]["steps"], summ[0]["mismatches"], carried, carried_re,
+        {v: sum(1 for st in reqs if st.get("via") == v) for v in sorted(via_seen)}))
     # real time, one-sided: releases per refresh cycle
     tp = ctx.path("c09_frel.ndjson")
     rc, out = ctx.go_test(PKG_F, "^TestVerifC09FilterRelease$", env={"VERIF_OUT": tp, "VERIF_N": 3 if q else 10})
